@@ -1177,3 +1177,105 @@ theorem find_map_update (calls : List Call) (cid : Nat) (c : Call) (gs : List (L
       simp [hx, ih hfind]
 
 end AnySync.StreamPool
+
+
+namespace AnySync.StreamPool
+
+/-! ## isolation: frame conditions -/
+
+/-- updating object `b` leaves every other object alone -/
+theorem getObj_modObj_other (objs : List Stream) (a b : Nat) (f : Stream → Stream)
+    (hf : ∀ s, (f s).id = s.id) (hab : a ≠ b) : getObj (modObj objs b f) a = getObj objs a := by
+  rw [getObj_modObj objs b a f hf]; simp [hab]
+
+theorem id_tryAdd (m : Nat) (s : Stream) : ((s.tryAdd m).1).id = s.id := (static_tryAdd m s).1
+
+/-- a write addressed to `b` changes no other object; its outcome is a function of `b`'s own object -/
+theorem writeTo_frame (p : Pool) (a b m : Nat) (hab : a ≠ b) :
+    getObj (p.writeTo b m).1.objs a = getObj p.objs a := by
+  unfold Pool.writeTo
+  split
+  · rfl
+  · exact getObj_modObj_other _ _ _ _ (id_tryAdd m) hab
+
+theorem writeTo_local (p : Pool) (b m : Nat) :
+    getObj (p.writeTo b m).1.objs b = (getObj p.objs b).map (fun s => (s.tryAdd m).1) ∧
+    (p.writeTo b m).2 = match getObj p.objs b with
+      | some s => (s.tryAdd m).2
+      | none => false := by
+  unfold Pool.writeTo
+  cases h : getObj p.objs b with
+  | none => simp [h]
+  | some s =>
+    refine ⟨?_, ?_⟩
+    · simp only [h]
+      rw [getObj_modObj _ _ _ _ (id_tryAdd m)]
+      simp [h]
+    · simp [h]
+
+/-- A writer / remote / close step of stream `b` changes no other stream object. -/
+theorem foreign_step_frame (p : Pool) (st : Step) (a b : Nat) (hs : st.subject = some b) (hab : a ≠ b) :
+    getObj (step p st).1.objs a = getObj p.objs a := by
+  cases st <;> simp [Step.subject] at hs <;> subst hs
+  case take =>
+    simp only [step, Pool.take]; split; · rfl
+    split; · rfl
+    exact getObj_modObj_other _ _ _ _ (fun s => (static_take s).1) hab
+  case complete =>
+    simp only [step, Pool.complete]; split; · rfl
+    split; · rfl
+    exact getObj_modObj_other _ _ _ _ (fun s => (static_complete s).1) hab
+  case ctxClose =>
+    simp only [step, Pool.ctxClose]; split; · rfl
+    split; · rfl
+    exact getObj_modObj_other _ _ _ _ (fun s => (static_ctxClose s).1) hab
+  case writerExit =>
+    simp only [step, Pool.writerExit]; split; · rfl
+    split; · rfl
+    exact getObj_modObj_other _ _ _ _ (fun s => (static_writerExit s).1) hab
+  case cancel =>
+    simp only [step, Pool.cancel]; split; · rfl
+    exact getObj_modObj_other _ _ _ (fun s => { s with cancelled := true }) (fun s => rfl) hab
+  case setGated v =>
+    simp only [step, Pool.setGated]; split; · rfl
+    exact getObj_modObj_other _ _ _ (fun s => { s with gated := v }) (fun s => rfl) hab
+  case readClose =>
+    simp only [step, Pool.readClose]; split; · rfl
+    exact getObj_modObj_other _ _ _ (fun s => { s with closed := true }) (fun s => rfl) hab
+  case poolRemove =>
+    simp only [step, Pool.poolRemove]; split; · rfl
+    split; · rfl
+    split; · exact getObj_modObj_other _ _ _ (fun s => { s with removed := true }) (fun s => rfl) hab
+    split <;> exact getObj_modObj_other _ _ _ (fun s => { s with removed := true }) (fun s => rfl) hab
+
+/-- The writer of a stream (however slow, blocked or failing) never touches an index, a pending call
+or the dial pool: snapshots taken by callers read the same lists whatever any writer does. -/
+theorem writer_step_keeps_pool (p : Pool) (st : Step) (b : Nat) (hw : st.isWriterOf b = true) :
+    let p' := (step p st).1
+    p'.streams = p.streams ∧ p'.byPeer = p.byPeer ∧ p'.byTag = p.byTag ∧ p'.calls = p.calls ∧
+    p'.dialBuf = p.dialBuf ∧ p'.running = p.running ∧ p'.lastId = p.lastId := by
+  cases st <;> simp [Step.isWriterOf] at hw
+  case take => simp only [step, Pool.take]; split; · simp
+               split <;> simp
+  case complete => simp only [step, Pool.complete]; split; · simp
+                   split <;> simp
+  case ctxClose => simp only [step, Pool.ctxClose]; split; · simp
+                   split <;> simp
+  case writerExit => simp only [step, Pool.writerExit]; split; · simp
+                     split <;> simp
+  case cancel => simp only [step, Pool.cancel]; split <;> simp
+  case setGated => simp only [step, Pool.setGated]; split <;> simp
+
+/-- Fallback between streams (write to the next one when the previous is full) only happens inside
+one peer: every group snapshotted by `SendById` consists of streams of a single peer, and `Broadcast`
+groups are singletons. So the state of `b`'s queue can only redirect a message to another stream of
+`b`'s own peer. -/
+theorem groups_single_peer (p : Pool) (h : IdxInv p) (peers : List Nat) :
+    ∀ g ∈ p.sendByIdGroups peers, ∃ k, ∀ id ∈ g, peerOf p.objs id = some k := by
+  intro g hg
+  unfold Pool.sendByIdGroups at hg
+  rw [List.mem_filter, List.mem_map] at hg
+  obtain ⟨⟨k, _, rfl⟩, _⟩ := hg
+  exact ⟨k, fun id hid => (h.byPeer_mem hid).2⟩
+
+end AnySync.StreamPool
